@@ -1,11 +1,6 @@
-#!/bin/bash
-# tools/keep_seed.sh <property> <src dir (patch.diff, demo.py, notes.md)> <name>
-# Confirms the seeded change (demo + full pinned test-suite on a scratch worktree + the check)
-# and, if confirmed, stores it under /verif/seeded/<name>/ with meta.json.
-pid=$1; src=$2; name=$3
-res=$(timeout 7000 python3 /verif/tools/try_seed.py "$pid" "$src" --tests 2>&1 | grep -v 'WARNING: ')
-echo "$res" > /tmp/keep_$name.json
-python3 - "$pid" "$src" "$name" <<'PY'
+#!/usr/bin/env python3
+"""usage: keep_seed_finalize.py <pid> <src dir> <name>  (reads /tmp/keep_<name>.json written by try_seed.py --tests)"""
+
 import json, sys, os, shutil
 pid, src, name = sys.argv[1:4]
 txt = open('/tmp/keep_%s.json' % name).read()
@@ -32,4 +27,3 @@ if ok:
                'check_result': r.get('check_out'), 'check_rc': r.get('check_rc'), 'replay_excerpt': r.get('replay'),
                'repo_head': os.popen('git -C /repo rev-parse --short HEAD').read().strip()},
               open(os.path.join(d, 'meta.json'), 'w'), indent=1)
-PY
